@@ -58,11 +58,13 @@ TopicRes(sm, tp) ==
   LET ls == ListsFor(sm, tp, 1)
       all == FirstSeen(Flatten(ls), 1, <<>>)
       ps == Range(all)
-      sc == [p \in ps |-> ScoreIn(ls, p)]
-      ix == [p \in ps |-> IndexOf(all, p)]
+      \* (TLCEval: TLC would otherwise re-evaluate the function body at every application)
+      sc == TLCEval([p \in ps |-> ScoreIn(ls, p)])
+      ix == TLCEval([p \in ps |-> IndexOf(all, p)])
       \* position after a STABLE sort by decreasing score
-      pos == [p \in ps |-> 1 + Cardinality({q \in ps : sc[q] > sc[p] \/ (sc[q] = sc[p] /\ ix[q] < ix[p])})]
-      sorted == [n \in 1..Len(all) |-> CHOOSE p \in ps : pos[p] = n]
+      pos == TLCEval([p \in ps |-> 1 + Cardinality({q \in ps : sc[q] > sc[p] \/ (sc[q] = sc[p] /\ ix[q] < ix[p])})])
+      at == TLCEval([n \in 1..Len(all) |-> CHOOSE p \in ps : pos[p] = n])
+      sorted == at
       kept == SelectSeq(sorted, LAMBDA p : sc[p] > (MinReq - 1) * CountWeight)
   IN [topic |-> tp, prios |-> [n \in 1..Len(kept) |-> [p |-> kept[n], score |-> sc[kept[n]]]]]
 CalcTopics(ms) == LET sm == SortedMsgs(ms) IN {TopicRes(sm, tp) : tp \in TopicsOf(ms)}
@@ -87,24 +89,27 @@ LongestList(ms) == LET ls == UNION {{Len(m.topics[t].prios) : t \in DOMAIN m.top
 WeightDominates(ms) == Len(ms) * (LongestList(ms) - 1) < CountWeight
 ResOK(ms, r) ==
   LET ps == [n \in DOMAIN r.prios |-> r.prios[n].p]
-      cnt(p) == Cardinality(Support(ms, r.topic, p))
-  IN /\ ~HasDup(ps)
+      cnt == TLCEval([p \in Range(ps) |-> Cardinality(Support(ms, r.topic, p))])
+      osum == TLCEval([p \in Range(ps) |-> OrderSum(ms, r.topic, p)])
+  IN /\ Cardinality(Range(ps)) = Len(ps)                     \* no priority twice
      /\ Range(ps) \subseteq Proposed(ms, r.topic)
      \* only priorities that at least minRequired peers provided
-     /\ \A p \in Range(ps) : cnt(p) >= MinReq
+     /\ \A p \in Range(ps) : cnt[p] >= MinReq
      \* the reported score is count * weight - sum of orders
-     /\ \A n \in DOMAIN ps : r.prios[n].score = cnt(ps[n]) * CountWeight - OrderSum(ms, r.topic, ps[n])
+     /\ \A n \in DOMAIN ps : r.prios[n].score = cnt[ps[n]] * CountWeight - osum[ps[n]]
      \* scores never increase along the result
-     /\ \A a, b \in DOMAIN ps : a < b => r.prios[a].score >= r.prios[b].score
+     /\ \A a \in DOMAIN ps : a < Len(ps) => r.prios[a].score >= r.prios[a + 1].score
 ResDocOK(ms, r) ==
   LET ps == [n \in DOMAIN r.prios |-> r.prios[n].p]
-      cnt(p) == Cardinality(Support(ms, r.topic, p))
+      all == Proposed(ms, r.topic)
+      cnt == TLCEval([p \in all |-> Cardinality(Support(ms, r.topic, p))])
+      osum == TLCEval([p \in Range(ps) |-> OrderSum(ms, r.topic, p)])
   IN \* every priority that minRequired peers provided is included ...
-     /\ \A p \in Proposed(ms, r.topic) : cnt(p) >= MinReq => p \in Range(ps)
+     /\ \A p \in all : cnt[p] >= MinReq => p \in Range(ps)
      \* ... ordered by number of peers, then by overall priority
-     /\ \A a, b \in DOMAIN ps : a < b =>
-           \/ cnt(ps[a]) > cnt(ps[b])
-           \/ cnt(ps[a]) = cnt(ps[b]) /\ OrderSum(ms, r.topic, ps[a]) <= OrderSum(ms, r.topic, ps[b])
+     /\ \A a \in DOMAIN ps : a < Len(ps) =>
+           \/ cnt[ps[a]] > cnt[ps[a + 1]]
+           \/ cnt[ps[a]] = cnt[ps[a + 1]] /\ osum[ps[a]] <= osum[ps[a + 1]]
 CalcOK(ms, res) == /\ \A r \in res.topics : ResOK(ms, r) /\ (WeightDominates(ms) => ResDocOK(ms, r))
                    /\ {r.topic : r \in res.topics} = TopicsOf(ms)
                    /\ Cardinality(res.topics) = Cardinality(TopicsOf(ms))
